@@ -45,12 +45,24 @@ ScnS(p, cfg, sh, second) ==
                   \o (IF sh >= 0 THEN <<[op |-> "shutdown", n |-> 0]>> ELSE <<>>)
                   \o (IF cfg.uni_credit = 3 THEN <<[op |-> "grant", uni |-> 2, bidi |-> 0]>> ELSE <<>>)]
 
+\* part G: the peer's control stream delivers SETTINGS and then further frames one by one while the endpoint's own unidirectional
+\* streams (control, QPACK, grease) are still being written a few bytes at a time or wait for stream credit
+Ctl(role) == IF role = "server" THEN 2 ELSE 3
+PeerFrames == { <<33, 0>>, <<33, 2, 1, 2>>, <<7, 1, 16>> }     \* reserved-type frames, GOAWAY with an id nobody has used
+ScnG(role, cfg, f1, f2) ==
+    [part |-> "G", role |-> role, cfg |-> cfg, prog |-> <<>>,
+     steps |-> <<[op |-> "deliver", sid |-> Ctl(role), bytes |-> <<0, 4, 0>>], [op |-> "deliver", sid |-> Ctl(role), bytes |-> f1], [op |-> "deliver", sid |-> Ctl(role), bytes |-> f2]>>
+               \o (IF cfg.uni_credit = 3 THEN <<[op |-> "grant", uni |-> 2, bidi |-> 0]>> ELSE <<>>)]
+CfgsG == { [grease |-> TRUE, write |-> w, uni_credit |-> c] : w \in {"all", "1", "3", "7"}, c \in {100, 3} }
+
 VARIABLE out
 Init == out = <<>>
 Next == /\ out = <<>>
         /\ \E p \in Progs(MaxCalls, 1), cfg \in Cfgs, sh \in {-1, 0, 1, 15, 4095}, second \in BOOLEAN, role \in {"client", "server"} :
               /\ (sh >= 0 \/ second) => (Len(p) <= 2)                 \* keep the product bounded
               /\ out' = (IF role = "client" THEN ScnC(p, cfg, sh, second) ELSE ScnS(p, cfg, sh, second))
-Spec == Init /\ [][Next]_out
+NextG == /\ out = <<>>
+         /\ \E role \in {"client", "server"}, cfg \in CfgsG, f1 \in PeerFrames, f2 \in PeerFrames : out' = ScnG(role, cfg, f1, f2)
+Spec == Init /\ [][Next \/ NextG]_out
 Emit == out = <<>> \/ PrintT(<<"SCN", ToJson(out)>>)
 =============================================================================
